@@ -1151,42 +1151,27 @@ size_t mfuse::base_str<CharT>::ui64toStr(uint64_t num, CharT* output, size_t len
 template<typename CharT>
 size_t mfuse::base_str<CharT>::floattoStr(float num, CharT* output, size_t len, uintptr_t precision)
 {
-    int32_t ipart = (int32_t)num;
-    size_t totalDigits = numtoStr(ipart, output, len, 10);
-
-    if (precision != 0)
-    {
-        // decimals
-        output[totalDigits] = '.';
-
-        float fpart = num - (float)ipart;
-        if (!fpart)
-        {
-            uintptr_t k;
-            uintptr_t idx = totalDigits + 1;
-            for (k = 0; k < precision; ++k, ++idx) {
-                output[idx] = '0';
-            }
-            output[idx] = 0;
-        }
-        else
-        {
-            fpart = fpart * pow(10, precision);
-
-            const size_t digits = numtoStr((int32_t)fpart, output + totalDigits + 1, len, 10);
-
-            totalDigits += digits;
-
-            uintptr_t k;
-            uintptr_t idx = totalDigits + 1 + digits;
-            for (k = digits + 1; k < precision; ++k) {
-                output[idx] = '0';
-            }
-            output[idx] = 0;
-        }
+    if (!len) {
+        return 0;
     }
 
-    return totalDigits;
+    // integer part, then exactly "precision" decimals (rounded), truncated to the output size
+    char text[128];
+    const int written = snprintf(text, sizeof(text), "%.*f", (int)(precision < 64 ? precision : 64), (double)num);
+    size_t total = written > 0 ? (size_t)written : 0;
+    if (total > sizeof(text) - 1) {
+        total = sizeof(text) - 1;
+    }
+    if (total > len - 1) {
+        total = len - 1;
+    }
+
+    for (size_t i = 0; i < total; ++i) {
+        output[i] = (CharT)text[i];
+    }
+    output[total] = 0;
+
+    return total;
 }
 
 /*
